@@ -129,10 +129,11 @@ def prev_blocks_global(function: "Function", block: "BasicBlock") -> List["Basic
     assert block.teal is not None
     if block == block.subroutine.entry:
         # if the block is the entry of the subroutine, return all blocks calling the subroutine
+        # and the blocks of the subroutine which jump back to its entry.
         if block.subroutine != function.main:
-            return function.caller_blocks(block.subroutine)
+            return function.caller_blocks(block.subroutine) + block.prev
         # the block is the main entry block of the contract
-        return []
+        return block.prev
     if block.is_sub_return_point:
         # if the block is the return point of the subroutine, return all retsub blocks of the subroutine
         # and the blocks which jump to this block.
